@@ -390,6 +390,30 @@ def fresh_seq(ety, name, idx=(), facts=None, kind="list", n=None):
     return s
 
 
+NONNEG_SINK = []   # (function, arity) of nested length / size functions created by templates
+
+
+WF_SINK = []       # (membership function, size function, depth, key arity)
+
+
+def drain_nonneg():
+    """Axioms forall idx. f(idx) >= 0 for every nested length / size function created so far,
+    and member(idx, k) -> size(idx) >= 1 for every fresh dict / set."""
+    out = []
+    while WF_SINK:
+        hasf, sizef, depth, kd = WF_SINK.pop()
+        xs = [z3.Int(uid("x")) for _ in range(depth + kd)]
+        out.append(z3.ForAll(xs, z3.Implies(hasf(*xs), sizef(*xs[:depth]) >= 1), patterns=[hasf(*xs)]))
+    while NONNEG_SINK:
+        f, ar = NONNEG_SINK.pop()
+        xs = [z3.Int(uid("x")) for _ in range(ar)]
+        if ar == 0:
+            out.append(f() >= 0)
+        else:
+            out.append(z3.ForAll(xs, f(*xs) >= 0, patterns=[f(*xs)]))
+    return out
+
+
 class _Template:
     """Builds, once, the uninterpreted functions for a value of type `ty` living under
     `depth` integer indices, and instantiates them at concrete index tuples."""
@@ -418,16 +442,21 @@ class _Template:
             self.parts = [_Template(t, "%s_%d" % (name, k), depth) for k, t in enumerate(ty[1])]
         elif tag.startswith("seq:"):
             self.lenf = z3.Function(uid(name + "_len"), *([I] * depth + [I]))
+            NONNEG_SINK.append((self.lenf, depth))
             self.elem = _Template(ty[1], name + "_e", depth + 1)
         elif tag == "dict":
             kd = _key_arity(ty[1])
             self.domf = z3.Function(uid(name + "_dom"), *([I] * (depth + kd) + [B]))
             self.sizef = z3.Function(uid(name + "_size"), *([I] * depth + [I]))
+            NONNEG_SINK.append((self.sizef, depth))
+            WF_SINK.append((self.domf, self.sizef, depth, kd))
             self.valt = _Template(ty[2], name + "_v", depth + kd)
         elif tag == "set":
             kd = _key_arity(ty[1])
             self.hasf = z3.Function(uid(name + "_has"), *([I] * (depth + kd) + [B]))
             self.sizef = z3.Function(uid(name + "_size"), *([I] * depth + [I]))
+            NONNEG_SINK.append((self.sizef, depth))
+            WF_SINK.append((self.hasf, self.sizef, depth, kd))
         else:
             raise EngineError("cannot template type %r" % (ty,))
 
@@ -507,4 +536,6 @@ def values_equal(a, b):
         if "real" in (ka, kb):
             return to_z3(as_real(a)) == to_z3(as_real(b))
         return to_z3(as_int(a)) == to_z3(as_int(b))
+    if (isinstance(a, tuple) and is_scalar(b)) or (isinstance(b, tuple) and is_scalar(a)):
+        return False
     raise EngineError("unsupported equality %r == %r" % (a, b))
